@@ -33,7 +33,7 @@ BUDGET = {
     "thorough": {"examples": 5000, "shards": 16, "cap_s": 2400, "shrink_calls": 150, "shrink_s": 300, "case_timeout_s": 240},
 }
 
-OPS = ["fresh", "fresh", "merge", "merge", "swap", "chain", "kin_fresh", "unknown", "param_to_kin"]
+OPS = ["fresh", "fresh", "merge", "merge", "swap", "chain", "kin_fresh", "kin_fresh", "again", "again", "unknown", "param_to_kin"]
 
 
 def _map():
@@ -55,10 +55,15 @@ def strategy(tier):
     )
 
 
-def resolve(ops, params, kins):
-    """Index-based operations -> {old name: new name}.  Returns (mapping, flags)."""
+def resolve(ops, params, kins, previous_targets=()):
+    """Index-based operations -> {old name: new name}.  Returns (mapping, flags).
+
+    ``again`` renames a symbol that an *earlier* map of the same case has produced (a rename of
+    a rename: the model returned by rename_symbols must itself be a fully consistent model)."""
     mapping: dict[str, str] = {}
     flags = set()
+    existing = {p.name for p in params} | {k.name for k in kins}
+    again_pool = [t for t in previous_targets if t in existing]
     pnames = [p.name for p in params]
     knames = [k.name for k in kins]
     by_name = {p.name: p for p in params}
@@ -85,6 +90,11 @@ def resolve(ops, params, kins):
         elif kind == "kin_fresh" and knames:
             mapping[knames[i % len(knames)]] = f"v_{{{j}}}"
             flags.add("kinematic_variable")
+        elif kind == "again" and again_pool:
+            name = again_pool[i % len(again_pool)]
+            if name not in mapping:
+                mapping[name] = f"w_{{{j}}}"
+                flags.add("rename_of_a_renamed_symbol")
         elif kind == "unknown":
             mapping[f"zz{j}"] = f"yy{i}"
             flags.add("unknown_name")
@@ -139,10 +149,12 @@ def run_case(desc) -> Result:  # noqa: C901, PLR0911, PLR0912, PLR0914, PLR0915
     labels = [f"align={desc['config']['alignment']}", f"n_maps={len(desc['maps'])}"]
     nontrivial = False
     current = model
+    previous_targets: list[str] = []
     for ops in desc["maps"]:
         params = sorted((p for p in current.parameter_defaults if isinstance(p, sp.Symbol)), key=lambda s: s.name)
         kins = sorted(current.kinematic_variables, key=lambda s: s.name)
-        mapping, flags = resolve(ops, params, kins)
+        mapping, flags = resolve(ops, params, kins, previous_targets)
+        previous_targets = [*previous_targets, *mapping.values()]
         labels += sorted(f"op:{f}" for f in flags if f"op:{f}" not in labels)
         before = model_digest(current)
         outside = "outside_documented_use" in flags
@@ -226,10 +238,12 @@ def run_case(desc) -> Result:  # noqa: C901, PLR0911, PLR0912, PLR0914, PLR0915
 
     applied_maps = []
     cur = model
+    prev: list[str] = []
     for ops in desc["maps"]:
         params = sorted((p for p in cur.parameter_defaults if isinstance(p, sp.Symbol)), key=lambda s: s.name)
         kins = sorted(cur.kinematic_variables, key=lambda s: s.name)
-        mapping, _ = resolve(ops, params, kins)
+        mapping, _ = resolve(ops, params, kins, prev)
+        prev = [*prev, *mapping.values()]
         applied_maps.append(mapping)
         cur = cur.rename_symbols(mapping)
     values_old = {}
